@@ -184,6 +184,11 @@ class Domain:
   def unknown_call(self, node, st):
     return self.top(node)
 
+  def value_call(self, callee, args, kwargs, node, st):
+    """Call through a value that is not a resolved function (e.g. the
+    user's preprocessor)."""
+    return self.unknown_call(node, st)
+
   def call_result(self, func, ret, node, st):
     """Hook: value returned by an inlined repo call."""
     return ret
@@ -250,6 +255,10 @@ class Domain:
 
   def aux_copy(self, a):
     return a
+
+
+def is_heap(k):
+  return isinstance(k, tuple) and not k[0].startswith(('@', '?'))
 
 
 def _join_c(a, b):
@@ -395,7 +404,7 @@ class Engine:
     return self._run_body(func, argvals, st)
 
   def _run_body(self, func, argvals, st, closure_env=None):
-    callee = State({k: v for k, v in st.vars.items() if isinstance(k, tuple)},
+    callee = State({k: v for k, v in st.vars.items() if is_heap(k)},
                    st.aux)
     if closure_env:
       for k, v in closure_env.items():
@@ -487,7 +496,7 @@ class Engine:
       for (v, s, _) in res[1]:
         ns = State(dict(st.vars), s.aux)
         for k, val in s.vars.items():
-          if isinstance(k, tuple):
+          if is_heap(k):
             ns.vars[k] = val
         bind(v, ns)
         f.normal.append(ns)
@@ -560,7 +569,7 @@ class Engine:
         for (v, s, _) in res[1]:
           ns = State(dict(st.vars), s.aux)
           for k, val in s.vars.items():
-            if isinstance(k, tuple):
+            if is_heap(k):
               ns.vars[k] = val
           self.dom.on_return(v, stmt, ns)
           f.returns.append((v, ns, stmt))
@@ -822,6 +831,9 @@ class Engine:
     if isinstance(target, ast.Name):
       st.vars[target.id] = v
       st.vars.pop(('?unbound', target.id), None)
+      for k in [k for k in st.vars if isinstance(k, tuple) and
+                k[0] == '@attr' and k[1] == target.id]:
+        del st.vars[k]
       self.dom.on_assign_name(target.id, v, stmt, st)
     elif isinstance(target, (ast.Tuple, ast.List)):
       n = len(target.elts)
@@ -987,7 +999,12 @@ class Engine:
           v.ty = 'none'
       return v
     objv = self.eval(e.value, st, func)
-    return self.load_attr(objv, e.attr, e, st, func)
+    r = self.load_attr(objv, e.attr, e, st, func)
+    if isinstance(e.value, ast.Name):
+      fact = st.vars.get(('@attr', e.value.id, e.attr))
+      if fact is not None and objv.obj is None:
+        r = r.with_(c=fact.c)
+    return r
 
   def eval_index(self, sl, st, func):
     """Parsed subscript: list of ('slice', lo, hi, step) | ('expr', V) |
@@ -1260,7 +1277,7 @@ class Engine:
     elts = [self.eval(x, work, func) for x in elt_nodes]
     # effects on heap/aux inside comprehension are kept
     for k, v in work.vars.items():
-      if isinstance(k, tuple):
+      if is_heap(k):
         st.vars[k] = v
     st.aux = work.aux
     return elts, iters
@@ -1409,10 +1426,17 @@ class Engine:
 
   def call_value(self, callee, args, kwargs, e, st, func, want_flow=False):
     fn = callee.fn
+    if fn is None and callee.obj is not None:
+      meth = self.repo.resolve_method(callee.obj.cls, '__call__')
+      if isinstance(meth, FuncInfo):
+        self.calls_resolved += 1
+        self.dom.on_call('repo', meth, args, kwargs, e, st)
+        return self.call_repo(meth, [callee] + args, kwargs, e, st, func,
+                              want_flow)
     if fn is None:
       self.calls_unresolved.append((func, e))
       self.dom.on_call('unknown', callee, args, kwargs, e, st)
-      return V(self.dom.unknown_call(e, st))
+      return self._wrap(self.dom.value_call(callee, args, kwargs, e, st))
     kind = fn[0]
     if kind == 'repo':
       self.calls_resolved += 1
@@ -1565,7 +1589,7 @@ class Engine:
     for (names, s, n) in flow.raises:
       cs = State(dict(st.vars), s.aux)
       for k, v in s.vars.items():
-        if isinstance(k, tuple) and k[0] != '?unbound':
+        if is_heap(k):
           cs.vars[k] = v
       self._pending_raises.append((names, cs, n))
     if not flow.returns:
@@ -1579,10 +1603,10 @@ class Engine:
     for (v, s, n) in flow.returns:
       ret = self.join_v(ret, v)
     js = self.join_states([s for (_, s, _) in flow.returns])
-    for k in [k for k in st.vars if isinstance(k, tuple)]:
+    for k in [k for k in st.vars if is_heap(k)]:
       del st.vars[k]
     for k, v in js.vars.items():
-      if isinstance(k, tuple) and k[0] != '?unbound':
+      if is_heap(k):
         st.vars[k] = v
     st.aux = js.aux
     return self._wrap(self.dom.call_result(target, ret, e, st))
@@ -1609,6 +1633,9 @@ class Engine:
       base = st.vars.get(e.value.id)
       if isinstance(base, V) and base.obj is not None:
         return (base.obj.oid, e.attr)
+      if isinstance(base, V) and base.fn is None and \
+              e.attr in ('ndim', 'size', 'shape'):
+        return ('@attr', e.value.id, e.attr)
     return None
 
   def _get_lv(self, key, e, st, func):
